@@ -106,11 +106,11 @@ Definition check_ci (xs : list Q) (c : Q) (mean lo hi trec fneg : xreal) : list 
           let n := length xs in
           if negb (within ((4 * Qofnat n + 16) * ulp53 * Qmaxabs xs) m mgo) then verdict V_MISMATCH 0 1 (qdiag m) else
           match w with
-          | CIZero => if xeq (XFin mgo) lo && xeq (XFin mgo) hi then verdict V_OK 65 (-1) [] else verdict V_MISMATCH 65 2 []
-          | CIInf => if xeq (XInf true) lo && xeq (XInf false) hi then verdict V_OK 66 (-1) [] else verdict V_MISMATCH 66 2 []
+          | CIZero => if xeq (XFin mgo) lo && xeq (XFin mgo) hi then verdict V_OK 129 (-1) [] else verdict V_MISMATCH 129 2 []
+          | CIInf => if xeq (XInf true) lo && xeq (XInf false) hi then verdict V_OK 130 (-1) [] else verdict V_MISMATCH 130 2 []
           | CIStudent n' v alpha =>
               if is_zero v then
-                (if xeq (XFin mgo) lo && xeq (XFin mgo) hi then verdict V_OK 68 (-1) [] else verdict V_MISMATCH 68 2 [])
+                (if xeq (XFin mgo) lo && xeq (XFin mgo) hi then verdict V_OK 132 (-1) [] else verdict V_MISMATCH 132 2 [])
               else
                 match lo, hi, trec, fneg with
                 | XFin l, XFin h, XFin t, XFin f =>
@@ -125,10 +125,10 @@ Definition check_ci (xs : list Q) (c : Q) (mean lo hi trec fneg : xreal) : list 
                         Qltb 0 t;
                         within (2 * tr + 2 * relw) 1 (wh * wh * Qofnat n / (t * t * v));   (* w = t s / sqrt n *)
                         within (tol_P + t * (tr + relw)) alpha f ] with      (* content: F(-t) = (1-c)/2 *)
-                    | None => verdict V_OK 67 (-1) []
-                    | Some i => verdict V_MISMATCH 67 (i + 3) (qdiag v ++ qdiag alpha)
+                    | None => verdict V_OK 131 (-1) []
+                    | Some i => verdict V_MISMATCH 131 (i + 3) (qdiag v ++ qdiag alpha)
                     end
-                | _, _, _, _ => verdict V_MISMATCH 67 2 []
+                | _, _, _, _ => verdict V_MISMATCH 131 2 []
                 end
           end
       | _ => verdict V_MISMATCH 0 1 (qdiag m)
